@@ -310,4 +310,31 @@ PROPS = {
         'assumptions': ['statements are separated by a blank (templates) or a line break (generated sequences)'],
         'partial': ['sequences longer than two and statements beyond the templates: implementation oracle only'],
     },
+    'C03': {
+        'coq': 'Props/C03.v',
+        'families': [
+            {'name': 'nopanic', 'args': {'quick': ['--templates', 1, '--programs', 8000, '--mutants', 60000],
+                                         'thorough': ['--templates', 1, '--programs', 300000, '--mutants', 3000000]},
+             'shards': {'quick': 16, 'thorough': 16}, 'driver_args': ['--nodedupe'], 'max_skip': 0.97},
+            {'name': 'scope', 'args': {'quick': ['--random', 4000], 'thorough': ['--random', 200000]},
+             'shards': {'quick': 16, 'thorough': 16}, 'driver_args': []},
+            {'name': 'use', 'args': {'quick': ['--random', 4000], 'thorough': ['--random', 200000]},
+             'shards': {'quick': 16, 'thorough': 16}, 'driver_args': []},
+            {'name': 'graph', 'args': {'quick': ['--random', 4000], 'thorough': ['--random', 200000]},
+             'shards': {'quick': 16, 'thorough': 16}, 'driver_args': []},
+        ],
+        'exhaustive': {'quick': False, 'thorough': False},
+        'rule': 'inputs without syntax diagnostics from: the 83 statement templates in 10 contexts with undeclared names and with a '
+                'prelude declaring them; the repository snippets; generated programs of the supported subset and of the wider grammar '
+                '(all operators, aliases, casts), each also with injected faults (top-level statements deleted, duplicated, swapped: '
+                'undeclared and duplicate names, wrong scope); token-level mutants of the snippets (1-2 tokens deleted, swapped, '
+                'duplicated or replaced); plus the scoped programs (colliding names, duplicates, undeclared), usage-rule programs '
+                '(wrong arity, wrong operand kinds, wrong scope) and structural programs of C07/C13/C06; oracle: no panic, exactly the '
+                'global scope open afterwards; non-trivial = input without syntax diagnostics',
+        'trusted_base': ['Model/Scoping.v + Model/SymTab.v for the scope-balance theorem; everything else is an oracle on the implementation',
+                         'hook verif_scope_depth; panic sites are named by the innermost repository function on the backtrace'],
+        'assumptions': ['memory exhaustion and non-termination of the analyser are not modelled: a case that does not return fails the run by timeout'],
+        'partial': ['only the symbol-table side (no symbol-table panic, scopes balanced) is a theorem; absence of panics in the translation '
+                    'functions is tested, with the listed known panic classes'],
+    },
 }
